@@ -108,6 +108,12 @@ def scenarios(tier):
                    "inject": [{"bytes": tcp_reply(a(1), 22, 0x14), "afterProbe": 1, "delayMs": 40}, {"bytes": tcp_reply(a(1), 80, 0x1ff), "afterProbe": 1, "delayMs": 50},
                               {"bytes": tcp_reply(a(1), 81, 0x14), "afterProbe": 1, "delayMs": 60}],
                    "expect": packet_expect(scan, target(a(1), 32, [rng(22, 22), rng(80, 80)]), [[rng(22, 22), rng(80, 80)]], [2], 500)})
+    # 3'. null / xmas: the flag sets of the probes (C05 re-encodes them) and reports for every reply, with --ports-file and --exclude
+    for name, cmd, scan in (("tcp-null", ["tcp", "null"], "tcpnull"), ("tcp-xmas", ["tcp", "xmas"], "tcpxmas")):
+        sc.append({"name": name, "args": cmd + ["--json", "--ports-file", "{dir}/ports", "--exclude", "{dir}/excl"] + COMMON + ["--exit-delay", "400ms", "10.9.3.0/30"],
+                   "files": {"empty": "", "ports": "# services\n22\n\n80-81\n", "excl": "10.9.3.0/31\n"},
+                   "inject": [{"bytes": tcp_reply(a(2), 22, 0x14), "afterProbe": 1, "delayMs": 40}, {"bytes": tcp_reply(a(1), 80, 0x14), "afterProbe": 1, "delayMs": 50}],
+                   "expect": packet_expect(scan, target(net30, 30, [rng(22, 22), rng(80, 81)], exclude=[{"ip": net30, "len": 31}]), [[rng(22, 22), rng(80, 81)]], [6], 400)})
     # 4. more than 200 port ranges: two engine runs, each with its own filter and its own exit delay
     ports = list(range(1000, 1201))
     chunk1, chunk2 = [rng(p, p) for p in ports[:200]], [rng(p, p) for p in ports[200:]]
@@ -119,6 +125,18 @@ def scenarios(tier):
     # 4'. more than 200 port ranges with a rate limit: every pass is paced
     sc.append({"name": "tcp-chunked-rate", "args": ["tcp", "syn", "--json", "--rate", "500/s", "-p", ",".join(str(p) for p in ports)] + COMMON + ["--exit-delay", "300ms", "10.9.3.1"], "files": {"empty": ""},
                "expect": packet_expect("tcpsyn", target(a(1), 32, chunk1 + chunk2), [chunk1, chunk2], [200, 1], 300, rate={"n": 500, "winMs": 1000, "winNs": 0})})
+    # 4". a busy wire: reply-shaped frames keep arriving during the whole run, so the receiver of a pass is inside a read whenever the pass
+    # ends (no exit delay at all, a very short one, the default): both passes are sent, the process does not crash (finding F17)
+    for dly, ms in (("0s", 0), ("1ms", 1), ("300ms", 300)):
+        sc.append({"name": "tcp-chunked-busy-" + dly, "args": ["tcp", "syn", "--json", "-p", ",".join(str(p) for p in ports)] + COMMON + ["--exit-delay", dly, "10.9.3.1"], "files": {"empty": ""},
+                   "flood": tcp_reply(a(1), 1005, 0x12), "floodAll": True,
+                   "expect": dict(packet_expect("tcpsyn", target(a(1), 32, chunk1 + chunk2), [chunk1, chunk2], [200, 1], ms), kind="packetbusy")})
+    sc.append({"name": "busy-wire-exit", "args": ["tcp", "syn", "--json", "-p", "1005"] + COMMON + ["--exit-delay", "300ms", "10.9.3.1"], "files": {"empty": ""},
+               "flood": tcp_reply(a(1), 1005, 0x12), "floodAll": True,
+               "expect": {"kind": "sigint", "scan": "tcpsyn", "vpn": False, "target": target(a(1), 32, [rng(1005, 1005)])}})
+    sc.append({"name": "busy-wire-sigint", "args": ["arp", "--json", "--rate", "50/s", "10.9.3.0/26"], "sigintAfter": 5, "maxMs": 10000,
+               "flood": arp_reply(a(5), [2, 0x5a, 9, 9, 9, 5]), "floodAll": True,
+               "expect": {"kind": "sigint", "scan": "arp", "target": target(net30, 26)}})
     # 5. arp with a rate limit: coverage, spacing, reply -> record
     sc.append({"name": "arp-rate", "args": ["arp", "--json", "--rate", "200/s", "--exit-delay", "500ms", "10.9.3.0/27"],
                "inject": [{"bytes": arp_reply(a(5), [2, 0x5a, 9, 9, 9, 5]), "afterProbe": 3, "delayMs": 10}, {"bytes": arp_reply([10, 9, 4, 5], [2, 0x5a, 9, 9, 9, 6]), "afterProbe": 3, "delayMs": 20}],
@@ -261,6 +279,7 @@ def scenarios(tier):
 
 
 DEFAULT_OPTS = {"tcpsyn": ("tcp", {"flags": 0x002}), "tcpfin": ("tcp", {"flags": 0x001}), "tcpflags": ("tcp", {"flags": 0x011}),
+                "tcpnull": ("tcp", {"flags": 0x000}), "tcpxmas": ("tcp", {"flags": 0x029}),
                 "udp": ("udp", {"ttl": 64, "ipflags": 2, "ipproto": 17, "iplen": 0, "payload": []}),
                 "icmp": ("icmp", {"ttl": 64, "ipflags": 2, "ipproto": 1, "iplen": 0, "type": 8, "code": 0, "payload": [], "defaultPayload": True}),
                 "arp": ("arp", {})}
@@ -397,6 +416,45 @@ def run_wire(ctx, select=None, label="wire", focus="all"):
     for e in events[:1]:
         ctx.sample({k: (v if k not in ("probes", "injected") else len(v)) for k, v in e.items() if not k.startswith("_")})
     return len(events), rejected
+
+
+def scanrun_events(e):
+    """one run as the time-ordered event sequence ScanRunTrace consumes"""
+    evs = [{"ev": "Probe", "t": p["t"], "bytes": p["bytes"]} for p in e["probes"]] + \
+          [{"ev": "Inject", "t": i["t"], "bytes": i["bytes"]} for i in e["injected"] if i["done"]]
+    evs.sort(key=lambda v: (v["t"], v["ev"] == "Probe"))
+    return [{"ev": "Start", "t": 0, "name": e["name"], "expect": e["expect"]}] + evs + [{"ev": "Exit", "t": e["exitT"], "code": e["exit"], "records": e["records"]}]
+
+
+def scanrun_validate(ctx, pid, label="scanrun"):
+    """validates every clean packet run of the last run_wire call against the chunk-loop state machine ScanRun (one TLC process per run)"""
+    import concurrent.futures
+    runs = []
+    for e in getattr(ctx, "wire_events", []):
+        x = e["expect"]
+        if x["kind"] != "packet" or e.get("floodN") or e["panic"] or e["killed"] or e["drops"] or len(e["probes"]) > 600:
+            continue
+        keys = [(tuple(p["ip"]), p["port"]) for p in x["target"]["pairs"]]
+        if len(keys) != len(set(keys)) or x["dstmacs"]:          # multiplicities / error-replaced probes are C01's and C11's business
+            continue
+        runs.append(e)
+
+    def one(e):
+        p = os.path.join(ctx.scratch, "%s-%s.ndjson" % (label, e["name"]))
+        vf.write_ndjson(p, scanrun_events(e))
+        return ctx.tlc_trace("ScanRunTrace", p, timeout=900)
+    with concurrent.futures.ThreadPoolExecutor(max_workers=8) as ex:
+        res = list(ex.map(one, runs))
+    bad = []
+    for e, (ok, info) in zip(runs, res):
+        if not ok:
+            bad.append(e["name"])
+            ctx.violation("%s:scanrun:%s" % (pid, e["name"]), "sx %s on the virtual wire does not follow the chunk-loop model: ScanRunTrace rejects event %s %s (probes=%d stdout=%s)" %
+                          (" ".join(e["args"])[:160], info["index"], info["event"][:160], len(e["probes"]), e["stdout"][:4]),
+                          replay={"property": pid, "trace_spec": "ScanRunTrace", "run": scanrun_events(e)})
+    ctx.cov["traces_validated_against_impl"] += len(runs)
+    ctx.step(label, runs=len(runs), rejected=bad)
+    return len(runs), bad
 
 
 def report(ctx, pid, rejected, names=None):
